@@ -390,6 +390,9 @@ def iso_extra(prop, tier, seed):
     # after the other), and handshakes held up at an unwrap of a stored key (storage wrapper = KMS round trips) while another runs
     out.append(dict(id="sch_base", ops=[dict(op="Schedule", a=a, b=b, gate="none", spare=0, lstate=False, bare=bare, sw=False)
                                          for bare in (True, False) for (a, b) in (("baseA", "baseB"), ("baseB", "baseA"), ("baseA", "auth"), ("auth", "baseB"))]))
+    # a refused enrolment (registered key + fresh token) followed by an unrelated enrolment / authentication
+    out.append(dict(id="sch_after_refusal", ops=[dict(op="Schedule", a="tokenDup", b=b, gate="none", spare=0, lstate=False, bare=False, sw=sw)
+                                                  for sw in (False, True) for b in ("token", "auth", "tokenDup")]))
     out.append(dict(id="sch_unwrap", ops=[dict(op="Schedule", a=a, b=b, gate=g, spare=sp, lstate=False, bare=False, sw=True)
                                            for sp in (0, 2) for g in ("unwrap1", "unwrap2", "unwrap3") for (a, b) in (("auth", "auth"), ("auth", "token"), ("token", "auth"))]))
     # the listener's own options carry a state VALUE shared by every handshake
